@@ -389,4 +389,106 @@ theorem rule_to_thru (E : Env) (k : OK ρ) (hk : KeepsWindow k) (n fuel : Nat) (
         simp only [Bool.false_eq_true, if_false] at g6
         simp [g1, Gen.PegSkel.RULE_TO_rest0, execL, execStmt, evalCond, g3, g6, hle, opsWord, bind, Except.bind]
 
+/-! #### RULE_TIL -/
+
+/-- one iteration of the terminus search: locals 1 = terminus_start, 2 = terminus_end, 0 = text (untouched) -/
+def TilBody (k : OK ρ) (t : ρ) (body : Loc → St → Except Err Out) : Prop :=
+  ∀ (L : Loc) (s : St) (pos : Nat), L.ptr 1 = some pos →
+    match k t s pos with
+    | .error e => body L s = .error e
+    | .ok (none, s1) => ∃ L1, body L s = .ok (.cont L1 (capLoad s1 (capSave s))) ∧ L1.ptr 1 = some (pos + 1) ∧ L1.ptr 2 = none ∧
+        L1.ptr 0 = L.ptr 0
+    | .ok (some e, s1) => ∃ L1, body L s = .ok (.brk L1 (capLoad s1 (capSave s))) ∧ L1.ptr 1 = some pos ∧ L1.ptr 2 = some e ∧
+        L1.ptr 0 = L.ptr 0
+
+theorem til_loop (k : OK ρ) (hk : KeepsWindow k) (t : ρ) (cond : Loc → St → Bool) (body : Loc → St → Except Err Out)
+    (hcond : ∀ L s pos, L.ptr 1 = some pos → cond L s = decide (pos ≤ s.textEnd)) (hbody : TilBody k t body) :
+    ∀ (n f : Nat) (s : St) (pos : Nat) (L : Loc), L.ptr 1 = some pos → L.ptr 2 = none → n = s.textEnd + 1 - pos → n + 1 ≤ f →
+      (∃ e, Op.tilLoop k t n s pos = .error e ∧ loopN cond body f L s = .error e) ∨
+      (∃ s' L', Op.tilLoop k t n s pos = .ok (none, s') ∧ loopN cond body f L s = .ok (.cont L' s') ∧ L'.ptr 2 = none ∧
+        L'.ptr 0 = L.ptr 0) ∨
+      (∃ ps pe s' L', Op.tilLoop k t n s pos = .ok (some (ps, pe), s') ∧ loopN cond body f L s = .ok (.cont L' s') ∧
+        L'.ptr 1 = some ps ∧ L'.ptr 2 = some pe ∧ L'.ptr 0 = L.ptr 0) := by
+  intro n
+  induction n with
+  | zero =>
+    intro f s pos L hp h2 hn hf
+    obtain ⟨f', rfl⟩ : ∃ f', f = f' + 1 := ⟨f - 1, by omega⟩
+    have hgt : ¬ pos ≤ s.textEnd := by omega
+    right; left
+    exact ⟨s, L, by simp [Op.tilLoop], by simp [loopN, hcond L s pos hp, hgt], h2, rfl⟩
+  | succ n ih =>
+    intro f s pos L hp h2 hn hf
+    obtain ⟨f', rfl⟩ : ∃ f', f = f' + 1 := ⟨f - 1, by omega⟩
+    have hle : pos ≤ s.textEnd := by omega
+    simp only [Op.tilLoop, loopN, hcond L s pos hp, hle, decide_true, if_true]
+    have hb := hbody L s pos hp
+    cases hkr : k t s pos with
+    | error e =>
+      simp only [hkr] at hb
+      left; exact ⟨e, by simp [bind, Except.bind], by simp [hb, bind, Except.bind]⟩
+    | ok x =>
+      obtain ⟨res, s1⟩ := x
+      have hw : s1.textEnd = s.textEnd := hk t s pos res s1 hkr
+      cases res with
+      | none =>
+        simp only [hkr] at hb
+        obtain ⟨L1, h1, g1', g2', g0'⟩ := hb
+        have hw2 : (capLoad s1 (capSave s)).textEnd = s.textEnd := by simp [capLoad, hw]
+        rcases ih f' (capLoad s1 (capSave s)) (pos + 1) L1 g1' g2' (by rw [hw2]; omega) (by omega) with
+          ⟨e, g1, g2⟩ | ⟨s', L', g1, g2, g3, g4⟩ | ⟨ps, pe, s', L', g1, g2, g3, g4, g5⟩
+        · left; exact ⟨e, by simp [bind, Except.bind, g1], by simp [h1, bind, Except.bind, g2]⟩
+        · right; left
+          exact ⟨s', L', by simp [bind, Except.bind, g1], by simp [h1, bind, Except.bind, g2], g3, g4.trans g0'⟩
+        · right; right
+          exact ⟨ps, pe, s', L', by simp [bind, Except.bind, g1], by simp [h1, bind, Except.bind, g2], g3, g4, g5.trans g0'⟩
+      | some e =>
+        simp only [hkr] at hb
+        obtain ⟨L1, h1, g1', g2', g0'⟩ := hb
+        right; right
+        exact ⟨pos, e, capLoad s1 (capSave s), L1, by simp [bind, Except.bind], by simp [h1, bind, Except.bind], g1', g2', g0'⟩
+
+theorem til_body (E : Env) (k : OK ρ) (t r : ρ) (fuel : Nat) :
+    TilBody k t (fun L s => execL E k (ops [(1, t), (2, r)] []) fuel Gen.PegSkel.RULE_TIL_body0 L s) := by
+  intro L s pos hp
+  simp only [Gen.PegSkel.RULE_TIL_body0, execL, execStmt, evalCond, ops]
+  cases hk : k t s pos with
+  | error e => simp [hk, hp, opsRule, bind, Except.bind]
+  | ok x =>
+    obtain ⟨res, s1⟩ := x
+    cases res <;> simp [hk, hp, opsRule, bind, Except.bind, upd]
+
+/-- RULE_TIL: the terminus is searched from the current position on (captures of every attempt dropped); the sub-pattern then
+    runs from the START inside the window that ends where the terminus begins, the window is put back, and the match ends after
+    the terminus -/
+theorem rule_til (E : Env) (k : OK ρ) (hk : KeepsWindow k) (n fuel : Nat) (t r : ρ) (s : St) (pos : Nat)
+    (hf : s.textEnd + 1 - pos + 1 ≤ fuel) :
+    runL E k (ops [(1, t), (2, r)] []) fuel Gen.PegSkel.RULE_TIL s pos = Op.step E k n (.til t r) s pos := by
+  simp only [runL, Gen.PegSkel.RULE_TIL, execL, execStmt, Loc.init, Op.step]
+  cases hd : down1 s with
+  | error e => simp [hd, bind, Except.bind]
+  | ok s0 =>
+    have hs0 : s0.textEnd = s.textEnd := by
+      unfold down1 at hd; split at hd <;> simp at hd; subst hd; rfl
+    simp only [hd, bind, Except.bind, if_true]
+    rcases til_loop k hk t (fun L s => evalCond E (ops [(1, t), (2, r)] []) L s (.ptrLeEnd 1)) _
+        (fun L s pos hp => by simp [evalCond, hp]) (til_body E k t r fuel) (s.textEnd + 1 - pos) fuel s0 pos
+        { ptr := upd (upd (fun x => if x = 0 then some pos else none) 1 (some pos)) 2 none, cs := fun _ => ⟨0, 0, 0⟩,
+          val := fun _ => .nil, num := fun _ => 0, oldmode := false }
+        (by simp [upd]) (by simp [upd]) (by rw [hs0]) (by omega) with
+      ⟨e, g1, g2⟩ | ⟨s', L', g1, g2, g3, g4⟩ | ⟨ps, pe, s', L', g1, g2, g3, g4, g5⟩
+    · rw [g2]; simp [g1]
+    · rw [g2]
+      simp [g1, Gen.PegSkel.RULE_TIL_rest0, execL, execStmt, evalCond, g3, bind, Except.bind]
+    · have g5' : L'.ptr 0 = some pos := by simpa [upd] using g5
+      rw [g2]
+      simp only [g1, Gen.PegSkel.RULE_TIL_rest0, execL, execStmt, evalCond, ops, bind, Except.bind]
+      cases hd2 : down1 { up1 s' with textEnd := ps } with
+      | error e => simp [hd2, g3, g4, g5', upd, opsRule]
+      | ok s3 =>
+        simp [hd2, g3, g4, g5', upd, opsRule]
+        cases hk2 : k r s3 pos with
+        | error e => simp [hk2]
+        | ok x => obtain ⟨res, s4⟩ := x; cases res <;> simp [hk2, upd, g4]
+
 end JanetModel.Peg.TieSkel
